@@ -475,10 +475,14 @@ class TransferFrame:
         current_idx += exact_tfdf_len
         # Parse OCF field if present
         if not header_type == HeaderType.TRUNCATED and frame.header.op_ctrl_flag:
+            if current_idx + 4 > len(raw_frame):
+                raise UslpInvalidRawPacketOrFrameLen
             frame.op_ctrl_field = raw_frame[current_idx : current_idx + 4]
             current_idx += 4
         # Parse Frame Error Control field if present
         if frame_properties.fecf_properties.present:
+            if current_idx + frame_properties.fecf_properties.size > len(raw_frame):
+                raise UslpInvalidRawPacketOrFrameLen
             frame.fecf = raw_frame[
                 current_idx : current_idx + frame_properties.fecf_properties.size
             ]
